@@ -34,7 +34,9 @@ var sigValVariants = map[sipsp.HdrT][]string{
 	sipsp.HdrVia: {"SIP/2.0/UDP h;branch=z9hG4bKabc", "SIP/2.0/UDP h:5060;rport", "SIP/2.0/UDP h;rport;branch=z9hG4bK.a-b_c, SIP/2.0/TCP other;branch=zzz9", "SIP/2.0/UDP h;branch=z9hG4bKabc123def ,SIP/2.0/UDP o2",
 		"SIP/2.0/UDP a, SIP/2.0/UDP b;branch=z9hG4bKx.y-z", "SIP/2.0/UDP a ,SIP/2.0/TCP b;rport;branch=q-1",
 		"SIP/2.0/UDP h;ext=\"a,b\";branch=z9hG4bK-77ef_4c21.x", "SIP/2.0/UDP h;ext=\"a;branch=zz\\\",\" ;BRANCH = z9hG4bK.1-2 ;x=\",\", SIP/2.0/UDP o;branch=other.1",
-		"SIP/2.0/UDP h;branches=zz-1.x;Branch-Hint=q_1;branch=z9hG4bKabc", "SIP/2.0/UDP h;branchid=a-b.c_d;rport", "SIP/2.0/UDP h;bran=x-1;xbranch=y.2;branch=z9hG4bK-q.1", "SIP/2.0/UDP h;x=\"ab\\\\\";y=\"\\\\\";branch=z9hG4bKa.b-c"},
+		"SIP/2.0/UDP h;branches=zz-1.x;Branch-Hint=q_1;branch=z9hG4bKabc", "SIP/2.0/UDP h;branchid=a-b.c_d;rport", "SIP/2.0/UDP h;bran=x-1;xbranch=y.2;branch=z9hG4bK-q.1", "SIP/2.0/UDP h;x=\"ab\\\\\";y=\"\\\\\";branch=z9hG4bKa.b-c",
+		// parameters whose values are hosts / addresses (gen-value = token / host / quoted-string) in front of the branch
+		"SIP/2.0/UDP h;received=2001:db8::2;branch=z9hG4bK-74bf9.a1_x", "SIP/2.0/UDP [2001:db8::1]:5060;maddr=[ff02::1];ttl=1;branch=z9hG4bKa.b-c", "SIP/2.0/TLS h:5061;x=a/b$c+d;rport;branch=z9hG4bK.1-2"},
 	sipsp.HdrCallID: {"abc", "x@y"},
 	sipsp.HdrFrom:   {"<sip:a@b>;tag=t", "sip:a@b"},
 }
@@ -411,7 +413,7 @@ func checkC19(r *Run) {
 					cms = []int{0, 1<<len(ord) - 1, (oi*37 + mi*11) % (1 << len(ord)), 0x55 & (1<<len(ord) - 1)}
 				}
 				for _, cm := range cms {
-					base := c19Case{Method: meth, Order: ord, Compact: cm, Repeat: -1, Cap: 40, Cut: -1, Var: (oi + mi + cm) % 13}
+					base := c19Case{Method: meth, Order: ord, Compact: cm, Repeat: -1, Cap: 40, Cut: -1, Var: (oi + mi + cm) % 16}
 					run(c, &base)
 					if (oi+mi+cm)%r.pick(5, 2) != 0 {
 						continue
